@@ -261,11 +261,131 @@ fn text_family(f: Fmt) -> Vec<String> {
     for z in ["0", "-0", "+0", "0.0", "-0.0", "00", "0.", ".0", "-0.", "+.0"] {
         v.push(z.to_string());
     }
+    // sign x spelling of the integral part x fraction: every place where the parser treats the three
+    // separately (negative zero, values in (-1,0) and (0,1) under every spelling of a zero integral part,
+    // leading zeros across the 19-digit chunk boundaries, trailing zeros, SCALE and SCALE+1 digits)
+    let mut ints: Vec<String> = vec!["0".into(), "00".into(), "000".into()];
+    for n in [19usize, 20, 38, 39] {
+        ints.push("0".repeat(n));
+    }
+    ints.extend(["1".to_string(), "01".to_string(), "001".to_string()]);
+    for n in [18usize, 19, 20, 37, 38] {
+        ints.push(format!("{}1", "0".repeat(n))); // 1 with leading zeros up to / across a chunk boundary
+    }
+    ints.push(format!("000{}", "9".repeat(19)));
+    ints.push(format!("00001{}", "0".repeat(19)));
+    ints.push(format!("0{}", "9".repeat(38)));
+    ints.push(format!("00001{}", "0".repeat(37)));
+    let fracs: Vec<String> = vec![
+        "".into(),
+        ".0".into(),
+        ".5".into(),
+        ".05".into(),
+        format!(".{}1", "0".repeat(s - 1)),
+        ".50".into(),
+        format!(".5{}", "0".repeat(s - 1)),
+        format!(".{}", "0".repeat(s)),
+        format!(".{}1", "0".repeat(s)),
+        format!(".5{}", "0".repeat(s)),
+        ".".into(),
+    ];
+    for sg in ["", "+", "-"] {
+        for ip in &ints {
+            for fr in &fracs {
+                v.push(format!("{}{}{}", sg, ip, fr));
+            }
+        }
+    }
     v
+}
+
+/// values whose printing takes a different path: whole numbers, values in (-1, 0) and (0, 1), one subunit,
+/// fractions with leading zeros, exactly SCALE fractional digits, trailing zeros to strip; for
+/// PreciseDecimal also magnitudes around one Decimal atto
+fn print_family(f: Fmt) -> Vec<BigInt> {
+    let one = f.one();
+    let mut v: Vec<BigInt> = Vec::new();
+    let mut mags: Vec<BigInt> = vec![
+        BigInt::from(1), BigInt::from(5), BigInt::from(10), &one / 2, &one / 20, &one / 10, &one - 1, one.clone(), &one + 1, &one * 3 / 2,
+        &one * 10, &one * 10 + &one / 10, &one * 123 / 100, &one * 1000 + 1, &one * 7, &one / 4, &one * 99 / 100,
+    ];
+    if f == Fmt::PDec {
+        let a = pow10(18);
+        mags.extend([&a - 1, a.clone(), &a + 1, &a * 5, &a / 2]);
+    }
+    for m in mags {
+        v.push(m.clone());
+        v.push(-m);
+    }
+    v.push(BigInt::zero());
+    v
+}
+
+/// sign / integral spelling / fraction class of a text of the shape [+-]?digits(.digits*)?
+fn shape_class(f: Fmt, s: &str, out: &Out) -> Option<String> {
+    let b = s.as_bytes();
+    let (sign, rest) = match b.first() {
+        Some(b'-') => ("minus", &b[1..]),
+        Some(b'+') => ("plus", &b[1..]),
+        _ => ("nosign", b),
+    };
+    let (ip, fp) = match rest.iter().position(|c| *c == b'.') {
+        Some(p) => (&rest[..p], Some(&rest[p + 1..])),
+        None => (rest, None),
+    };
+    if ip.is_empty() || !ip.iter().all(|c| c.is_ascii_digit()) || !fp.map(|x| x.iter().all(|c| c.is_ascii_digit())).unwrap_or(true) {
+        return None;
+    }
+    let allzero = ip.iter().all(|c| *c == b'0');
+    let int = if allzero {
+        if ip.len() == 1 {
+            "zero1"
+        } else if ip.len() < 19 {
+            "zeroN"
+        } else {
+            "zerochunk"
+        }
+    } else if ip[0] == b'0' {
+        if ip.len() > 19 { "nonzero_lz_chunk" } else { "nonzero_lz" }
+    } else {
+        "nonzero"
+    };
+    let sc = f.scale() as usize;
+    let frac = match fp {
+        None => "nofrac",
+        Some(x) if x.is_empty() => "emptyfrac",
+        Some(x) if x.len() > sc => "toolong",
+        Some(x) if x.iter().all(|c| *c == b'0') => {
+            if x.len() == sc { "zeros_full" } else { "zeros" }
+        }
+        Some(x) if *x.last().unwrap() == b'0' => {
+            if x.len() == sc { "trailing_zero_full" } else { "trailing_zero" }
+        }
+        Some(x) if x.len() == sc => "nonzero_full",
+        Some(_) => "nonzero",
+    };
+    Some(format!("shape_{}_{}_{}_{}_{}", f.name(), sign, int, frac, if matches!(out, Out::Ok(_)) { "ok" } else { "err" }))
+}
+
+fn print_class(f: Fmt, x: &BigInt, s: &str) -> String {
+    let neg = if x.is_negative() { "neg" } else if x.is_zero() { "zero" } else { "pos" };
+    let int0 = if (x.abs() / f.one()).is_zero() { "int0" } else { "intnz" };
+    let frac = match s.find('.') {
+        None => "whole".to_string(),
+        Some(p) => {
+            let d = s.len() - p - 1;
+            let lead = s[p + 1..].starts_with('0');
+            format!("{}{}", if d == f.scale() as usize { "frac_full" } else { "frac_stripped" }, if lead { "_leading0" } else { "" })
+        }
+    };
+    format!("prt_{}_{}_{}_{}", f.name(), neg, int0, frac)
 }
 
 fn text_class(f: Fmt, s: &str, out: &Out) -> Vec<String> {
     let mut v = Vec::new();
+    if let Some(c) = shape_class(f, s, out) {
+        v.push(c);
+    }
     if let Some(val) = grammar_value(f, s.as_bytes()) {
         let res = if matches!(out, Out::Ok(_)) { "ok" } else { "err" };
         for (name, lim) in [("max", f.max()), ("min", f.min())] {
@@ -328,6 +448,9 @@ fn main() {
         for x in boundaries(f) {
             det.push((f, None, Some(x)));
         }
+        for x in print_family(f) {
+            det.push((f, None, Some(x)));
+        }
     }
     let ndet = det.len();
     for i in 0..(ndet + args.cases) {
@@ -355,6 +478,7 @@ fn main() {
                     if x == f.max() || x == f.min() {
                         report.count(&format!("print_{}_limit", f.name()));
                     }
+                    report.count(&print_class(f, &x, s));
                     cw.push(format!("({}, TPrint {}, OPrint {})", f.coq(), cz(&x), coq_bytes(s.as_bytes())));
                 }
                 Err(_) => {
